@@ -28,7 +28,6 @@ import (
 	"io"
 	"net/http"
 	"net/http/httptest"
-	"os"
 	"strconv"
 	"strings"
 	"sync"
@@ -158,9 +157,6 @@ func (s *c05Store) dynErr(w http.ResponseWriter, rq *c05Req, status int, typ, ms
 func (s *c05Store) serveDynamo(w http.ResponseWriter, r *http.Request) {
 	body, _ := io.ReadAll(r.Body)
 	target := r.Header.Get("X-Amz-Target")
-	if os.Getenv("C05_DEBUG") != "" {
-		fmt.Printf("DDB %s %s %v %q\n", r.Method, r.URL, r.Header, body[:min(len(body), 300)])
-	}
 	op := strings.TrimPrefix(target, "DynamoDB_20120810.")
 	s.mu.Lock()
 	defer s.mu.Unlock()
@@ -308,9 +304,6 @@ func c05StripQuotes(s string) string {
 
 func (s *c05Store) serveS3(w http.ResponseWriter, r *http.Request) {
 	body, _ := io.ReadAll(r.Body)
-	if os.Getenv("C05_DEBUG") != "" {
-		fmt.Printf("S3 %s %s %v body=%d %q\n", r.Method, r.URL, r.Header, len(body), body[:min(len(body), 80)])
-	}
 	path := strings.TrimPrefix(r.URL.Path, "/")
 	bucket, key, _ := strings.Cut(path, "/")
 	s.mu.Lock()
